@@ -17,7 +17,8 @@
  ***************************************************************************)
 EXTENDS Integers, FiniteSets
 CONSTANTS MaxTime,          \* horizon of the bounded model
-          Deadlines         \* deadlines an operation may be called with (ticks from its start)
+          Deadlines,        \* deadlines an operation may be called with (ticks from its start)
+          Urgent            \* TRUE: the contract; FALSE: a connection whose operations need not end in time (negative control)
 Ops == {"send", "ack", "ping"}
 Peers == {"acks", "silent", "noread", "gone", "garbage", "late"}
 VARIABLES now, open, peer, answerAt, pend, last
@@ -49,7 +50,7 @@ RetClosed   == ~open /\ End("closed")
 Close == open /\ open' = FALSE /\ UNCHANGED <<now, peer, answerAt, pend, last>>
 \* urgency: with an operation pending, time stops at its deadline and at a Close
 Tick == /\ now < MaxTime
-        /\ pend.op # "none" => (open /\ now < pend.deadline /\ ~PeerFails(pend.op) /\ ~(Answers(pend.op) /\ peer # "late"))
+        /\ (Urgent /\ pend.op # "none") => (open /\ now < pend.deadline /\ ~PeerFails(pend.op) /\ ~(Answers(pend.op) /\ peer # "late"))
         /\ now' = now + 1 /\ UNCHANGED <<open, peer, answerAt, pend, last>>
 Next == \/ \E op \in Ops, d \in Deadlines : Call(op, d)
         \/ RetOk \/ RetPeer \/ RetDeadline \/ RetClosed \/ Close \/ Tick
